@@ -1,16 +1,20 @@
 ---------------------------- MODULE Output_MC ----------------------------
 (* instances of Output: the three programs without and with their optional stages, every crash point,      *)
-(* 8 initial directories (target absent/present x backups #.1# / #.2# absent/present)                      *)
+(* 20 initial directories: target absent/present x every subset of the backups #.1# #.2# #.3# (incl. the   *)
+(* non-contiguous {2}, {3}, {1,3}, {2,3}), and the output path being a symbolic link to a regular file      *)
+(* with backups {}, {1}, {2}, {1,3}                                                                          *)
 EXTENDS Output
 MCVariants == { [prog |-> "gen_params", on |-> {}], [prog |-> "gen_params", on |-> {"dsdna"}],
                 [prog |-> "gen_coords", on |-> {}], [prog |-> "gen_coords", on |-> {"split", "coords", "grid"}],
                 [prog |-> "gen_seq", on |-> {}],    [prog |-> "gen_seq", on |-> {"macro_file"}] }
-MCInits == [out : BOOLEAN, bk : SUBSET {1, 2}]
+MCInits == [out : BOOLEAN, bk : SUBSET {1, 2, 3}, link : {FALSE}]
+           \cup [out : {TRUE}, bk : {{}, {1}, {2}, {1, 3}}, link : {TRUE}]
 MCTargets1 == {"out"}
 MCNone == {}
 (* history extension: deferred-writer programs, first run fails (mostly inside serialisation), second run in the same process *)
 HVariants == { [prog |-> "gen_params", on |-> {}], [prog |-> "gen_coords", on |-> {}] }
-HInits == { [out |-> FALSE, bk |-> {}], [out |-> TRUE, bk |-> {}], [out |-> TRUE, bk |-> {1}] }
+HInits == { [out |-> FALSE, bk |-> {}, link |-> FALSE], [out |-> TRUE, bk |-> {}, link |-> FALSE],
+            [out |-> TRUE, bk |-> {1}, link |-> FALSE] }
 HCrash1 == { [stage |-> "links", when |-> "before"], [stage |-> "backmap", when |-> "after"],
              [stage |-> "open", when |-> "after"], [stage |-> "write", when |-> "mid"],
              [stage |-> "write", when |-> "after"], [stage |-> "flush", when |-> "before"] }
